@@ -516,7 +516,7 @@ func (e *Enc) frameGoals(st *State, exempt map[string][]Term) []frameGoal {
 	}
 	for _, name := range sortedKeys(st.heaps) {
 		cur := st.heaps[name]
-		if whole[name] || strings.HasPrefix(name, "X:defer_") || name == "X:protected" || name == "X:section" || name == "X:held" || strings.HasPrefix(name, "X:tr") {
+		if whole[name] || strings.HasPrefix(name, "X:defer_") || name == "X:protected" || name == "X:section" || name == "X:held" || strings.HasPrefix(name, "X:tr") || strings.HasPrefix(name, "X:visited_") {
 			continue
 		}
 		srt := e.compSort[name]
